@@ -104,6 +104,17 @@ def nested_sums(tier):
                     else:
                         w = ["mul", ["f", [I("i"), S("x")]], inner]
                     out.append(["sum", [["i", outer_pool]], w])
+    # the index symbol of an inner sum also occurs OUTSIDE that sum: free in the whole
+    # expression, or bound by an enclosing sum two levels up
+    for outer_pool, inner_pool in itertools.product(["P1", "P2"], repeat=2):
+        inner = ["sum", [["i", inner_pool]], ["f", [I("i"), S("x")]]]
+        free_i = ["sum", [["j", outer_pool]], ["mul", ["mul", I("i"), I("j")], inner]]
+        out.extend((
+            free_i,
+            ["sum", [["j", outer_pool]], ["add", ["f", [I("i"), I("j")]], inner]],
+            ["sum", [["i", outer_pool]], free_i],
+            ["sum", [["i", outer_pool]], ["add", free_i, S("y")]],
+        ))
     if tier == "thorough":
         for p1, p2, p3 in itertools.product(["P1", "P2", "P3"], repeat=3):
             for third in ("i", "j", "k"):
@@ -292,6 +303,10 @@ def point(seed):
     return {
         "x": Fraction(3, 7) + Fraction(seed % 97, 101),
         "y": Fraction(11, 5) + Fraction(seed % 89, 83),
+        # values of index-named symbols where they occur free
+        "i": Fraction(5, 9) + Fraction(seed % 71, 73),
+        "j": Fraction(13, 8) + Fraction(seed % 67, 61),
+        "k": Fraction(7, 11), "l": Fraction(9, 4),
     }
 
 
